@@ -29,8 +29,14 @@ func (g *GenericPlanner) WrapProcess(ctx *shared.PlannerContext,
 			}()
 		}
 		defer close(out)
-		// recover() only works when called directly by the deferred function
-		defer shared.TamePanic(out)
+		defer func() {
+			// recover() only works when called directly by the deferred function
+			if err := recover(); err != nil {
+				// nobody reads the upstream any more: let its producers finish
+				shared.Drain(_in)
+				shared.ReportPanic(err, out)
+			}
+		}()
 		for entries := range _in {
 			for i := range entries {
 				err := ops.OnEntry(&entries[i])
